@@ -13,7 +13,7 @@ Driver handlers for C13.
   (`planKinds`: the planner model `optimise` applied to the builders' chain `builderChain`)
 * `WCMP <s1> <e1> <s2> <e2>` ↦ `<T|F> <LT|EQ|GT> <T|F>` (`==`, `cmp`, hash consistent with `==`)
 * `WGROUP <op> <size> <off> <mode> <src> <rows>` ↦ `OK <rows>` | `PANIC`, `op` one of `kbw gbw gbwv gbwl gbws gbwj`
-  (unkeyed; `src` `d|t|a`) or `kkbw gbkw` (keyed; `src` `d|k`), `mode` one of `seq`, `par:T:P`, `par:T:none`, `ckseq`,
+  (unkeyed; `src` `d|t|a`) or `kkbw kkbwv gbkw` (keyed; `src` `d|k`), `mode` one of `seq`, `par:T:P`, `par:T:none`, `ckseq`,
   `ckpar:T:P` (row syntax: see `harness/src/c13.rs`; the model never answers `ERR …`). Grouped answers are
   canonicalised exactly like the harness canonicalises the real output: groups sorted by key (hash-map order is not
   modelled) — except `gbws`, whose row order is the model's sort by `Window.cmpImpl` —, group contents sorted (the
@@ -146,7 +146,7 @@ def handleWGroup : List String → String
             match parts.mapM (buildTs src) with
             | none => "BAD-OP"
             | some tparts => unkeyed op size off tparts
-      else if op == "kkbw" || op == "gbkw" then
+      else if op == "kkbw" || op == "gbkw" || op == "kkbwv" then
         match rows? krow? rows with
         | none => "BAD-OP"
         | some xs =>
@@ -160,6 +160,15 @@ def handleWGroup : List String → String
                 match keyByKeyAndWindowPar size off parts with
                 | none => "PANIC"
                 | some rs => "OK " ++ joinOrDash (rs.map (fun r => s!"{r.1.1}@{showW r.1.2}:{r.2}"))
+              else if op == "kkbwv" then
+                -- value steps around the windowing step, AS WRITTEN: `map_values(v*2)` before it (on the timestamped
+                -- value), `filter_values(v % 4 == 0)` and `map_values(v+1)` after it. The windowing step is an
+                -- ordinary `map` (not movable), so the planner's value-only sort must leave this block alone.
+                match keyByKeyAndWindowPar size off parts with
+                | none => "PANIC"
+                | some rs =>
+                  let rs := ((rs.map (fun r => (r.1, r.2 * 2))).filter (fun r => r.2 % 4 == 0)).map (fun r => (r.1, r.2 + 1))
+                  "OK " ++ joinOrDash (rs.map (fun r => s!"{r.1.1}@{showW r.1.2}:{r.2}"))
               else
                 match groupByKeyAndWindow size off parts with
                 | none => "PANIC"
